@@ -433,6 +433,23 @@ def call_module(it, fv, args, kwargs):
         if not is_arr(a0):
             return a0
         return npm.np_amax(ctx, a0, name, 1 if name in ('amax', 'max') else -1)
+    if name == 'bincount':
+        x = a0
+        w = args[1] if len(args) > 1 else kwargs.get('weights')
+        minlength = args[2] if len(args) > 2 else kwargs.get('minlength', 0)
+        if not (isinstance(x, SArr) and x.ndim == 1 and x.dtype == 'int') or not isinstance(w, SArr) or w.ndim != 1:
+            raise Unsupported('np.bincount form')
+        npm.shape_eq(ctx, x.shape, w.shape, 'bincount weights length')
+        xg, wg = npm.fz(x), npm.fz(w)
+        m = x.n
+        # result length is max(minlength, max(x)+1): require every bin index below minlength (and >= 0,
+        # numpy raises otherwise) so that the length is exactly minlength
+        k = ctx.fresh('bk', IntS)
+        ctx.add_iterm(k)
+        ctx.oblige('pre@callee', 'np.bincount: 0 <= x[k] < minlength',
+                   z3.Implies(z3.And(k >= 0, k < tz(m)), z3.And(tz(xg(k)) >= 0, tz(xg(k)) < tz(minlength))))
+        return npm.new_arr(ctx, (minlength,), lambda j: npm.np_sum(
+            ctx, m, lambda kk: zite(b2z(scalar_cmp('==', xg(kk), j)), wg(kk), 0, fp), 'bin'), w.dtype, 'bincount')
     if name == 'diff':
         if not (isinstance(a0, SArr) and a0.ndim == 1) or kwargs or len(args) > 1:
             raise Unsupported('np.diff form')
